@@ -77,7 +77,7 @@ def gen_exact(r, k):
         nsteps -= 1
     return {"kind": kind, "n": n, "L": L, "nref": nref, "nsteps": max(1, nsteps), "dtden": r.choice([8, 16, 32]),
             "seed": r.randrange(2 ** 30), "deph": r.choice(["Lorentzian", "Gaussian"]), "stride": r.choice([1, 2]),
-            "nb": r.choice([1, 2])}
+            "nb": r.choice([1, 2]), "cut": r.random() < 0.4}
 
 
 def make_system(c):
@@ -260,6 +260,12 @@ def run_exact(chk, c, items, meta):
             # tensor time axis: step = refined step / stride ; enough points for the whole walk
             sysstep = float(dtref) / stride
             ntens = nsteps * nref * stride + 2
+            cutidx = None
+            if c.get("cut") and nref == 1 and nsteps >= 2:
+                # a tensor with a cut-off time holds values up to the cut-off only; the propagation goes on with the last one
+                stride, sysstep = 1, float(dtref)
+                cutidx = r.choice([2, nsteps]) if nsteps > 2 else 2
+                ntens = cutidx
             tens = []
             for tt in range(ntens):
                 Lt = Lm * (tt % 3) + (tt // 3) * np.conj(Lm)
@@ -268,6 +274,10 @@ def run_exact(chk, c, items, meta):
             RT = TDRedfieldRelaxationTensor.__new__(TDRedfieldRelaxationTensor)
             RT._initialize_basis()
             RT.dim, RT.as_operators, RT._has_cutoff_time, RT.has_Iterm = n, False, False, False
+            if cutidx is not None:
+                RT._has_cutoff_time, RT.cutoff_time = True, float(ta.data[cutidx])
+                if ta.nearest(RT.cutoff_time) != cutidx:
+                    raise AssertionError("cut-off index")
             RT.Nt = ntens
             RT.SystemBathInteraction = types.SimpleNamespace(TimeAxis=qr.TimeAxis(0.0, ntens, sysstep))
             RT.data = tens.copy()
@@ -278,6 +288,7 @@ def run_exact(chk, c, items, meta):
             ev = prop.propagate(qr.ReducedDensityMatrix(data=rho0.copy()), method=method_of(L))
             out = np.array(ev.data)
             pk, Rl, cutoff = "PTdTensor", q5(tens), ntens
+            chk.count("exact:td %s" % ("with cut-off" if cutidx is not None else "no cut-off"))
     # monitors on the implementation's stored states: the property's exact clauses
     tr0 = np.trace(out[0])
     scale = float(np.max(np.abs(out)))
@@ -587,6 +598,11 @@ def main():
         r = cm.rng(PID)
         ne = 27 if args.tier == "quick" else 270
         cases = [gen_exact(r, k) for k in range(ne)]
+        # corpus: time-dependent tensor with a cut-off time (the pinned index walk ran off the end of the stored tensors)
+        corpus = [{"kind": "td", "n": 2, "L": 4, "nref": 1, "nsteps": 4, "dtden": 16, "seed": 11, "deph": "Lorentzian", "stride": 1, "nb": 1, "cut": True},
+                  {"kind": "td", "n": 2, "L": 2, "nref": 1, "nsteps": 3, "dtden": 8, "seed": 12, "deph": "Lorentzian", "stride": 1, "nb": 2, "cut": True},
+                  {"kind": "rwa", "n": 2, "L": 2, "nref": 1, "nsteps": 1, "dtden": 16, "seed": 219917864, "deph": "Lorentzian", "stride": 2, "nb": 1}]
+        cases = corpus + cases
     for c in cases:
         try:
             run_exact(chk, c, items, meta)
